@@ -421,9 +421,87 @@ fn job(ctx: &Ctx, jb: usize, r2: u64, r3: u64, r4: u64) -> Stats {
     st
 }
 
+/// LARGE roots (r = 10, 11 [, 12]): boards with 10 000 - 20 736 cells and numbers of three digits,
+/// so that variable names reach 13 and more bytes. The output (100+ MB) is not parsed as a formula
+/// but scanned as text: every variable _c_is_d with c < r^4 and 1 <= d <= r^2 must occur, no other
+/// may, and every `[..] = 1` list must name r^2 DIFFERENT variables.
+fn large_root_scan(ctx: &Ctx, st: &mut Stats, root: usize) {
+    let side = root * root;
+    let cells = side * side;
+    let dir = ctx.fresh_dir(&format!("c17-root-{}", root));
+    let _ = std::fs::create_dir_all(&dir);
+    let _ = std::fs::write(dir.join("p.txt"), ".");
+    st.evals += 1;
+    let out = cli::run(&ctx.bin("sudoku_gen"), &["-r".to_string(), root.to_string(), "p.txt".to_string()], None, Some(&dir), None, Duration::from_secs(300));
+    let _ = std::fs::remove_dir_all(&dir);
+    let case = || json!({"kind": "large-root", "root": root});
+    if out.timed_out {
+        st.bump("watchdog(inconclusive case)");
+        return;
+    }
+    if !out.ok() {
+        st.violate("c17.run", format!("C17:generator-failed:{}", out.panic_site()), format!("sudoku_gen -r {} on an empty puzzle: {}", root, out.status_string()), case());
+        return;
+    }
+    let text = String::from_utf8_lossy(&out.stdout);
+    let mut seen = vec![false; cells * side];
+    let mut distinct = 0usize;
+    let mut lists = 0u64;
+    for line in text.lines() {
+        let l = line.trim();
+        if l.starts_with('"') || l.is_empty() {
+            continue;
+        }
+        let mut in_list: Vec<usize> = Vec::new();
+        for tok in l.split(|ch: char| !(ch.is_alphanumeric() || ch == '_')).filter(|t| t.starts_with('_')) {
+            let parsed = tok.strip_prefix('_').and_then(|r| r.split_once("_is_")).and_then(|(c, d)| Some((c.parse::<usize>().ok()?, d.parse::<usize>().ok()?)));
+            match parsed {
+                Some((c, d)) if c < cells && d >= 1 && d <= side && format!("_{}_is_{}", c, d) == tok => {
+                    let k = c * side + (d - 1);
+                    if !seen[k] {
+                        seen[k] = true;
+                        distinct += 1;
+                    }
+                    in_list.push(k);
+                }
+                _ => {
+                    st.violate("c17.variables", "C17:unknown-variable".into(), format!("sudoku_gen -r {}: the output mentions `{}`, which is no variable _c_is_d of a board with {} cells and the numbers 1..{}", root, tok, cells, side), case());
+                    return;
+                }
+            }
+        }
+        if l.contains('[') && l.contains("= 1") {
+            lists += 1;
+            let mut u = in_list.clone();
+            u.sort();
+            u.dedup();
+            if u.len() != in_list.len() || in_list.len() != side {
+                st.violate("c17.variables", "C17:exactly-one-list-of-another-size".into(), format!("sudoku_gen -r {}: an exactly-one list names {} variables, {} of them different (expected {} different ones); it starts `{}`", root, in_list.len(), u.len(), side, l.chars().take(80).collect::<String>()), case());
+                return;
+            }
+        }
+    }
+    if distinct != cells * side {
+        let missing = seen.iter().position(|s| !*s).unwrap_or(0);
+        st.violate("c17.variables", "C17:variables-missing".into(), format!("sudoku_gen -r {}: {} different variables occur, the board has {}; e.g. _{}_is_{} is missing", root, distinct, cells * side, missing / side, missing % side + 1), case());
+        return;
+    }
+    st.bump("large_roots_scanned");
+    st.add("exactly_one_lists_scanned", lists);
+    st.max("max_root", root as u64);
+    st.nt.insert(mix(0x17_aa, root as u64));
+}
+
 pub fn run(ctx: &Ctx) -> (Stats, Spec) {
     let (r2, r3, r4) = ctx.tier.pick((200u64, 6u64, 2u64), (3_000u64, 40u64, 6u64));
-    let parts = util::par_jobs(16, |j| job(ctx, j, r2, r3, r4));
+    let big_roots: Vec<usize> = ctx.tier.pick(vec![11usize], vec![10, 11, 12]);
+    let parts = util::par_jobs(16, |j| {
+        let mut s = job(ctx, j, r2, r3, r4);
+        if j < big_roots.len() {
+            large_root_scan(ctx, &mut s, big_roots[j]);
+        }
+        s
+    });
     let mut st = crate::report::merge_all(parts);
     // r = 1: all inputs of length <= 2 over {1, ., space}
     let mut k = 0;
@@ -481,7 +559,7 @@ pub fn run(ctx: &Ctx) -> (Stats, Spec) {
         }
     }
     let spec = Spec {
-        rule: "root 1 exhaustively; root 2: the empty puzzle (288 grids) and random hint patterns (0-16 givens taken from valid grids, contradictory patterns incl. box-only conflicts, truncated and over-long inputs, puzzle texts spread over ~30 KiB of whitespace, 7 layouts with spaces/newlines/tabs/CRLF and empty lines between the bands or at the start, 8 input channels (regular file, a regular file named `-`, a regular file on stdin of which an earlier reader consumed a line, stdin at once / in small pieces, a named pipe or /dev/stdin as INPUT, file-to-file onto an existing longer file), 48 blank symbols incl. the double quote, control characters that are not whitespace (NUL, BEL, BS, ESC, DEL, U+0080, U+009F), private-use / unassigned / non-characters, a lone combining mark, punctuation, characters whose code point ends in the byte / 16-bit value of an ASCII digit (U+2031, U+2534, U+0131, U+10031, ..), format characters that are not whitespace (U+FEFF — a byte order mark when it comes first —, U+200B, U+00AD), multi-byte characters (·, □, ＿, é) and ASCII letters that are digits in a larger radix (a, b, e, g, A, F), ASCII and Unicode whitespace); root 3: puzzles with 30-60 givens derived from generated valid grids and the repository's example (exact model sets), sparse puzzles, root 4 and root 5 (one 25 x 25 board [quick], one per worker [thorough]) by structural probes (same digit twice in a unit, two digits / no digit in a cell, givens enforced, a valid grid satisfies, near-misses falsify). Exact = all models enumerated, decoded through _c_is_d and compared as a set with an independent backtracking solver. distinct = (root, normalised givens); non-trivial = at least one given and one blank.".into(),
+        rule: "root 1 exhaustively; root 2: the empty puzzle (288 grids) and random hint patterns (0-16 givens taken from valid grids, contradictory patterns incl. box-only conflicts, truncated and over-long inputs, puzzle texts spread over ~30 KiB of whitespace, 7 layouts with spaces/newlines/tabs/CRLF and empty lines between the bands or at the start, 8 input channels (regular file, a regular file named `-`, a regular file on stdin of which an earlier reader consumed a line, stdin at once / in small pieces, a named pipe or /dev/stdin as INPUT, file-to-file onto an existing longer file), 48 blank symbols incl. the double quote, control characters that are not whitespace (NUL, BEL, BS, ESC, DEL, U+0080, U+009F), private-use / unassigned / non-characters, a lone combining mark, punctuation, characters whose code point ends in the byte / 16-bit value of an ASCII digit (U+2031, U+2534, U+0131, U+10031, ..), format characters that are not whitespace (U+FEFF — a byte order mark when it comes first —, U+200B, U+00AD), multi-byte characters (·, □, ＿, é) and ASCII letters that are digits in a larger radix (a, b, e, g, A, F), ASCII and Unicode whitespace); root 3: puzzles with 30-60 givens derived from generated valid grids and the repository's example (exact model sets), sparse puzzles, root 4 and root 5 (one 25 x 25 board [quick], one per worker [thorough]) by structural probes, root 11 [quick] / 10-12 [thorough] by a scan of the text (every variable _c_is_d of the board occurs, no other does, every exactly-one list names r^2 different variables); probes: (same digit twice in a unit, two digits / no digit in a cell, givens enforced, a valid grid satisfies, near-misses falsify). Exact = all models enumerated, decoded through _c_is_d and compared as a set with an independent backtracking solver. distinct = (root, normalised givens); non-trivial = at least one given and one blank.".into(),
         assumptions: vec![
             "givens are digits between 1 and r^2; 0 and larger digits are outside the statement's domain and are not generated".into(),
             "rsbdd itself cannot solve even the 4x4 formula within minutes, so there is no engine cross-check here".into(),
